@@ -5,7 +5,7 @@ import hashlib
 import struct
 
 from gen import ref as R
-from .core import first, allv
+from .core import first, allv, canon_ev, canon_pre
 
 U64MAX = (1 << 64) - 1
 
@@ -36,7 +36,7 @@ class Case:
 def evs_of(toks):
     """the callback tokens, zero-count input announcements aside (C04: a segwit marker is first read as an
     empty input list; such announcements are outside the properties)"""
-    return [v for k, v in toks if k == "ev" and v != "2,0"]
+    return [canon_ev(v) for k, v in toks if k == "ev" and v != "2,0"]
 
 
 def res_of(toks):
@@ -220,7 +220,7 @@ def o_C04(ctx):
         if got[0] in ("panic", "missing"):
             continue
         r = expected_events(c)
-        exp = [x for x in (R.ev_token(e) for e in r["events"]) if x != "2,0"]
+        exp = [canon_ev(x) for x in (R.ev_token(e) for e in r["events"]) if x != "2,0"]
         evs = evs_of(t)
         if evs != exp:
             i = 0
@@ -726,10 +726,13 @@ def cache_oracles(ctx, prop):
                         rr = R.run("transaction", stored, 0)
                         if rr["ok"]:
                             e = [x for x in rr["events"] if x[0] == 10][-1]
-                            exp = "1," + ",".join(str(x) for x in e[2:])
+                            exp = "1," + ",".join(str(x) for x in list(e[2:5]) + canon_pre(list(e[5:11])) + list(e[11:]))
                         else:
                             exp = "2"
-                    if st["r"] != exp:
+                    got_v = st["r"].split(",")
+                    if got_v[0] == "1" and len(got_v) == 11:
+                        got_v = got_v[:4] + [str(x) for x in canon_pre([int(x) for x in got_v[4:10]])] + got_v[10:]
+                    if ",".join(got_v) != exp:
                         bad.append("get_value::<Transaction>(%d) = %s, the stored bytes decode to %s (0 absent, 1,len,version,locktime,preimage windows,weight; 2 from_bytes panics)" % (k, st["r"], exp))
             elif f[0] == "c":
                 k = int(f[1])
